@@ -89,8 +89,11 @@ type doResult struct {
 
 // Do sends one scenario and waits for its outcome. On timeout or process
 // death the worker is killed; died/timedOut tell which.
-func (w *Worker) Do(world string, scen json.RawMessage, events bool, timeout time.Duration) (o *simkit.Outcome, died, timedOut bool, stderr string) {
+func (w *Worker) Do(world string, scen json.RawMessage, events bool, timeout time.Duration, expect ...string) (o *simkit.Outcome, died, timedOut bool, stderr string) {
 	req := map[string]interface{}{"world": world, "scenario": scen, "events": events}
+	if len(expect) > 0 {
+		req["expect"] = expect
+	}
 	b, _ := json.Marshal(req)
 	b = append(b, '\n')
 	if _, err := w.in.Write(b); err != nil {
